@@ -38,6 +38,10 @@ func main() {
 		cmdVerify(os.Args[2:])
 	case "check":
 		cmdCheck(os.Args[2:])
+	case "inst":
+		cmdInst(os.Args[2:])
+	case "intr":
+		cmdIntR(os.Args[2:])
 	default:
 		usage()
 	}
